@@ -62,6 +62,11 @@ def main(argv):
             print(f"  {v[0]:8s} {v[2]:6d}ms {v[1]:12s} {o.name}   {o.where}")
             if v[0] != "unsat":
                 bad += 1
+                d = os.environ.get("PYVC_DUMP")
+                if d:
+                    os.makedirs(d, exist_ok=True)
+                    with open(os.path.join(d, o.name.replace("/", "_").replace(":", "_") + ".smt2"), "w") as f:
+                        f.write(o.smt2())
     print(f"obligations={len(allobs)} discharged={len(allobs)-bad} not={bad}")
 
 
